@@ -35,11 +35,11 @@ Qed.
 Theorem cnn_change_kernel_last_valid st c a hl r1 r2 :
   cnn_ok st a -> 1 < zlen (channels a) ->
   (match hl with Some l => l | None => pick 1 (Z.min 4 (zlen (channels a))) r1 end) = zlen (channels a) - 1 ->
-  cnn_ok st (arch_of (cnn_step st c a (CChangeKernel None hl) r1 r2)).
+  cnn_ok st (arch_of (cnn_step_prefix st c a (CChangeKernel None hl) r1 r2)).
 Proof.
   intros Hok Hlen Hi. apply cnn_ok_parts in Hok. destruct Hok as (Hne & Hwf & Hpos & Hfm).
   destruct (wf_lengths a Hwf) as [Lk Ls].
-  cbn [cnn_step]. unfold cnn_change_kernel. destruct (Z.ltb_spec 1 (zlen (channels a))); [|lia].
+  cbn [cnn_step_prefix]. unfold cnn_change_kernel_prefix. destruct (Z.ltb_spec 1 (zlen (channels a))); [|lia].
   set (i := zlen (channels a) - 1) in *.
   assert (Hkne : kernels a <> []) by (intros E; rewrite E in Lk; unfold zlen in Hlen; cbn in *; lia).
   assert (Hsne : strides a <> []) by (intros E; rewrite E in Ls; unfold zlen in Hlen; cbn in *; lia).
@@ -86,10 +86,10 @@ Definition cnn_in_bounds (c : cnn_cfg) (K S : Z) (a : cnn_arch) : Prop :=
 
 Theorem cnn_bounds_inv st c K S a m r1 r2 :
   1 <= c_min_layers c -> 9 <= K -> cnn_meth_ok m ->
-  cnn_in_bounds c K S a -> cnn_in_bounds c K S (arch_of (cnn_step st c a m r1 r2)).
+  cnn_in_bounds c K S a -> cnn_in_bounds c K S (arch_of (cnn_step_prefix st c a m r1 r2)).
 Proof.
   intros Hl HK Hm (Hwf & Hne & HL & HC & HKs & HS).
-  assert (HL' : c_min_layers c <= zlen (channels (arch_of (cnn_step st c a m r1 r2))) <= c_max_layers c)
+  assert (HL' : c_min_layers c <= zlen (channels (arch_of (cnn_step_prefix st c a m r1 r2))) <= c_max_layers c)
     by (apply cnn_layers_inv; auto; lia).
   split; [now apply cnn_wf_inv|]. split.
   { intros E. rewrite E in HL'. cbn in HL'. lia. }
@@ -99,11 +99,11 @@ Proof.
 Qed.
 
 Definition cnn_op := (cnn_meth * Z * Z)%type.
-Definition cnn_run st c (a : cnn_arch) (ops : list cnn_op) : cnn_arch :=
-  fold_left (fun a '(m, r1, r2) => arch_of (cnn_step st c a m r1 r2)) ops a.
+Definition cnn_run_prefix st c (a : cnn_arch) (ops : list cnn_op) : cnn_arch :=
+  fold_left (fun a '(m, r1, r2) => arch_of (cnn_step_prefix st c a m r1 r2)) ops a.
 
 Theorem cnn_bounds_chain st c K S : 1 <= c_min_layers c -> 9 <= K -> forall ops a,
-  Forall (fun o : cnn_op => cnn_meth_ok (fst (fst o))) ops -> cnn_in_bounds c K S a -> cnn_in_bounds c K S (cnn_run st c a ops).
+  Forall (fun o : cnn_op => cnn_meth_ok (fst (fst o))) ops -> cnn_in_bounds c K S a -> cnn_in_bounds c K S (cnn_run_prefix st c a ops).
 Proof.
   intros Hl HK. induction ops as [|[[m r1] r2] ops IH]; intros a HF HB; cbn; auto.
   inversion HF; subst. apply IH; auto. now apply cnn_bounds_inv.
